@@ -92,7 +92,7 @@ func runC11(c c11Case, o *vfutil.Obs) *vfutil.Failure {
 	gen := c11Gen
 	model := map[string]int64{}
 	keyOf := func(k int) (id, stream string, part int32) {
-		return fmt.Sprintf("cur-%d-%d", gen, k), "stream" + fmt.Sprint(k%3), int32(k % 2)
+		return fmt.Sprintf("cur-%d-%d", gen, k%2), "stream" + fmt.Sprint((k/2)%2), int32((k / 4) % 4) + 4*int32(k/16)
 	}
 	var hist []string
 	fetchErrs, fetches := 0, 0
